@@ -4,7 +4,7 @@ EXTRA = {
     "C05_w3_seed_3": ["C08"], "C06_w3_seed_3": ["C07"], "C11_w3_seed_3": ["C15"], "C13_w3_seed_2": ["C19", "C08"], "C13_w3_seed_3": ["C08"],
     "C14_w3_seed_3": ["C06"], "C17_w3_seed_2": ["C08"],
     # wave 4
-    "C01_w4_seed_1": ["C03"], "C02_w4_seed_3": ["C12"], "C05_w4_seed_1": ["C08"], "C06_w4_seed_1": ["C07"], "C06_w4_seed_2": ["C08"],
+    "C01_w4_seed_1": ["C03"], "C02_w4_seed_3": ["C12"], "C05_w4_seed_1": ["C08"], "C05_w4_seed_2": ["C08"], "C06_w4_seed_1": ["C07"], "C06_w4_seed_2": ["C08"],
     "C09_w4_seed_1": ["C19", "C06"], "C09_w4_seed_2": ["C08"], "C09_w4_seed_3": ["C05", "C06"], "C12_w4_seed_1": ["C02"],
     "C12_w4_seed_2": ["C02", "C14"], "C14_w4_seed_2": ["C05", "C09"], "C14_w4_seed_3": ["C04"], "C20_w4_seed_2": ["C08"], "C17_w4_seed_3": ["C12"],
 }
